@@ -224,3 +224,22 @@ def eval_sym(sym, leaf):
     raise NoEval(str(sym)[:60])
 
 
+
+
+def incoming_literal_sets(b, F, bb, depth=3):
+    """for a join block: one literal list per incoming normal edge (dominating literals of the predecessor + the literal of
+    the edge taken); predecessors that are themselves literal-free joins are expanded up to `depth`"""
+    from .facts import fmt_lit
+    out = []
+    for p in b.preds(bb):
+        if b.is_cleanup(p):
+            continue
+        for tgt, lab in b.succ_edges(p):
+            if tgt != bb:
+                continue
+            lits = [fmt_lit(b, l) for l, e in F.literals_at(p)] + [fmt_lit(b, l) for l in F.edge_literals(p, lab)]
+            if not lits and depth > 0 and len(b.preds(p)) > 0 and b.term(p)[0] == 'goto':
+                out.extend(incoming_literal_sets(b, F, p, depth - 1))
+            else:
+                out.append(lits)
+    return out
